@@ -47,6 +47,11 @@ claim('C05', 'fault_enumeration', 'exhaustive crash-point enumeration over the d
       'Trusted: datastore atomicity contract; executor external and idempotent on re-execution; small scope (<=3 blocks above genesis, order budget 2/4).',
       'DESIGN.md section 5 C05', 'explore')
 
+claim('C03', 'exploration', 'exhaustive enumeration of (adversarial catalogue item x target height x channel x insertion position) against a full node with all ingress loops in a synctest bubble; differential oracle',
+      'A full node runs RetrieveLoop, both P2P store loops, SyncLoop and DAIncluderLoop unmodified; the genuine chain arrives over the DA double; for every chain pattern, target height, catalogue item built without the proposer key (forged self-consistent empty/non-empty blocks under the proposer address with the attacker key, altered re-signed copies, unsigned and garbage-signed headers, another signer, forged signed data, junk P2P data, truncated and garbage blobs), channel (DA, P2P header store, P2P data store) and position (future/next/past) the end state (chain, state, DA-included height, execution and finalisation log, fatal errors) must equal the run without the adversary and every stored header must verify under the genesis key; light-node admission is decided by the two calls go-header makes (Validate, Verify) for every catalogue header and trusted head.',
+      'Trusted: synctest; P2P store doubles (contiguous append-only) instead of the go-header syncer; one adversarial item per run; junk arriving only over P2P that halts the node is recorded as an observation (the no-halt clause names the DA layer).',
+      'DESIGN.md section 5 C03', 'world')
+
 NOT_YET = "check not built yet in this session (work in progress, see DESIGN.md section 10 for the order of work)"
 
 checks = []
